@@ -35,6 +35,10 @@ func main() {
 		runtime.GOMAXPROCS(1)
 		schedWorker()
 		return
+	case "apiworker":
+		runtime.GOMAXPROCS(1)
+		apiWorker()
+		return
 	case "schedconfirm":
 		runtime.GOMAXPROCS(1)
 		schedConfirm()
